@@ -25,7 +25,7 @@ META = dict(
     bounds=[
         'query methods (no exclusions): quick a in [-6,6], n (number of '
         'steps to the stop point) in [0,4], q in [-15,30], steps 2,3; '
-        'thorough a in [-12,12], n in [0,6], q in [-40,80], steps 1..9; '
+        'thorough a in [-12,12], n in [0,6], q in [-40,80], steps 1..5; '
         'get_nearest_prev_point on a smaller box (loop from the start point)',
         'one-off sequences: a, q in [-20,20]/[-30,30] quick, [-99,99] thorough',
         'exclusions: start 1 (thorough 0,1), n in [0,3], excluded point e in '
@@ -444,7 +444,7 @@ OBS_Q = ['valid', 'nxt', 'nxt_on', 'prev', 'nprev', 'first',
 def OBLIGATIONS(tier):
     big = tier == 'thorough'
     t = 1500 if big else 150
-    steps = range(1, 10) if big else (2, 3)
+    steps = (1, 2, 3, 4, 5) if big else (2, 3)
     if big:
         B = {'a': [-12, 12], 'n': [0, 6], 'q': [-40, 80]}
         Bn = {'a': [-6, 6], 'n': [0, 3], 'q': [-12, 40]}
